@@ -82,7 +82,7 @@ def relOf : String → Option (Ctx → Res Bool)
   | "assert_true" => some fun c => .ok (truthy c.left.v)
   | "assert_false" => some fun c => .ok (!truthy c.left.v)
   | "assert_length_equal" => some fun c => (pyLen c.left.v).map fun n => pyEq (.int n) c.right.v
-  | "assert_length_not_equal" => some fun c => (pyLen c.left.v).map fun n => !pyEq (.int n) c.right.v
+  | "assert_length_not_equal" => some fun c => notR ((pyLen c.left.v).map fun n => pyEq (.int n) c.right.v)
   | "assert_length_less" => some fun c => lenRel c (· == .lt)
   | "assert_length_less_equal" => some fun c => lenRel c (fun o => o == .lt || o == .eq)
   | "assert_length_greater" => some fun c => lenRel c (· == .gt)
